@@ -240,7 +240,8 @@ pub fn run_c17(ctx: &mut Ctx) {
         for _ in 0..k {
             let mean = if mixed { ctx.rng.random_bool(0.5) } else { batch_mean };
             let c = rand_common(ctx, false);
-            let kind = Kind::Byte { cp_groups: ctx.rng.random_bool(0.5), pad_to: None };
+            // (vocabulary padding only adds special tokens: ids and groups must not depend on it)
+            let kind = Kind::Byte { cp_groups: ctx.rng.random_bool(0.5), pad_to: [None, None, Some(8), Some(128), Some(16), Some(1)][ctx.rng.random_range(0..6)] };
             let mut s = tok_text(ctx, 8, &c.tokens);
             if ctx.rng.random_range(0..3) == 0 {
                 // multi-byte / multi-code-point characters inside otherwise plain ASCII text
